@@ -4,6 +4,7 @@
 //	               only y <= 0, all >= 0; the extreme coordinate exactly 0 or not) and then scaled by a power of two,
 //	               mostly far below the size at which clipLine has to scale the operands up: whatever quantity the
 //	               code derives its scale factor from must not depend on the sign of the coordinates.
+//	farMemberCases a tiny figure plus one member line of ordinary size far away from the polygon
 //	holeBoxCases   polygons whose hole is NOT an axis-parallel rectangle (diamond, triangle, L) with lines that stay
 //	               inside the hole's bounding box (partly in the solid corners between the hole and its box), and
 //	               multi-polygons with an island inside a hole, the line on / across the island.
@@ -102,6 +103,37 @@ func quadrantCorpus(emit func(l geom.Geom, p geom.Geom)) {
 			emit(shapes.ScaleGeom(affine(ml, 1, -17-g, -10-g), f), shapes.ScaleGeom(affine(pg, 1, -17-g, -10-g), f))
 			emit(shapes.ScaleGeom(affine(ml[1], 1, -17-g, 2+g), f), shapes.ScaleGeom(affine(pg, 1, -17-g, 2+g), f))
 		}
+	}
+}
+
+// farMemberCases: a tiny figure (scale 2^-30 .. 2^-400) whose multi-line string has one more member of ORDINARY size far
+// away from the polygon (first, last or in the middle): the members of one multi-line string may differ in magnitude by
+// hundreds of binary orders, and whatever is decided per call must be decided per member.
+func farMemberCases(r *vproto.Rng, n int, emit func(l geom.Geom, p geom.Geom)) {
+	for i := 0; i < n; i++ {
+		kind := kinds[i%3]
+		style := []int{0, 1, 1, 5, 5, 2}[r.Intn(6)]
+		P := placedShape(r, kind, style)
+		l := makeLine(r, P, style, i%2 == 1)
+		f := math.Ldexp(1, []int{-30, -40, -60, -400}[r.Intn(4)])
+		var ml geom.MultiLineString
+		switch x := shapes.ScaleGeom(l, f).(type) {
+		case geom.LineString:
+			ml = geom.MultiLineString{x}
+		case geom.MultiLineString:
+			ml = x
+		}
+		bx, by := float64(r.Range(600, 1400)), float64(r.Range(-1400, 1400))
+		if r.Intn(4) == 0 {
+			bx = 0.75 // just above the size below which clipLine scales
+			by = 0.5 + float64(r.Intn(3))/4
+		}
+		far := geom.LineString{{X: bx, Y: by}, {X: bx + 1, Y: by + 2}, {X: bx + 3, Y: by + 1}}
+		pos := r.Intn(len(ml) + 1)
+		out := append(geom.MultiLineString{}, ml[:pos]...)
+		out = append(out, far)
+		out = append(out, ml[pos:]...)
+		emit(out, shapes.ScaleGeom(P.ToGeom(2, r.Intn(4) != 0), f))
 	}
 }
 
